@@ -19,6 +19,134 @@ EXPLAIN = (
 TX = nx.N + "::tx::Transaction"
 
 
+def _guarding_variants(g, b, adt_prefix="anda_kip::ast::"):
+    """(adt, variant) pairs whose match edge dominates block b in g (else-edges excluded)."""
+    out = set()
+    for (sb, place, adt, m, els) in g.variant_edges():
+        if not adt or not adt.startswith(adt_prefix):
+            continue
+        for v, tb in m.items():
+            if tb != els and (tb == b or g.dominates(tb, b)) and sum(1 for t in m.values() if t == tb) == 1:
+                out.add((adt, v))
+    return out
+
+
+def _tx_under_exclusive(rep, prog, se, arm, R, locks, ex):
+    """A read arm (KQL / META) whose executor can reach Transaction::begin - a dry run plans a real transaction: sequence
+    allocation, pending shells inserted and removed - must hold the lock *exclusively* for exactly those commands: other
+    readers would see the shells.  The command variants under which the executor reaches the transaction (callee side) are
+    compared with the variants Session::execute tests before it chooses the lock mode (caller side)."""
+    begin = {f.id for f in prog.fns.values() if f.path == nx.N + "::tx::Transaction::begin"}
+    if not begin:
+        raise CheckerFault("anchor missing: tx::Transaction::begin")
+    back = set()
+    for fid in prog.fns:
+        if prog.reach_set([fid]) & begin:
+            back.add(fid)
+    # every way of reaching the transaction, with the command variants that guard it (one set per call path); a callee entered
+    # with a constant bool argument is only followed along the edges that constant selects (capsule::import(.., dry_run = true))
+    chains = set()
+
+    def live_under(h, hb, consts):
+        """blocks of hb reachable when the named bool parameters have the given constant values"""
+        forced = {}
+        for blk in hb.live_blocks():
+            t = hb.term(blk)
+            if t["k"] != "switch":
+                continue
+            for o in hb.slice_back_op(t["o"], through=lambda ev: False):
+                nm = o[1] if o[0] == "upvar" else (hb.var_name(o[1]) if o[0] == "arg" else None)
+                if nm in consts:
+                    val = consts[nm]
+                    tgt = dict((int(x), y) for x, y in t["v"]).get(val, t.get("else"))
+                    forced[blk] = tgt
+        seen_, todo = set(), [0]
+        succ = hb.succ
+        while todo:
+            x = todo.pop()
+            if x in seen_:
+                continue
+            seen_.add(x)
+            nxt_ = [forced[x]] if x in forced else succ[x]
+            todo.extend(y for y in nxt_ if y is not None)
+        return seen_
+
+    def walk(fid, acc, consts, depth, stack):
+        if fid in begin:
+            chains.add(frozenset(acc))
+            return
+        if depth > 12 or fid in stack or len(chains) > 64:
+            return
+        h = prog.fns[fid]
+        hb = prog.async_body(h) or h
+        live = live_under(h, hb, consts) if consts else None
+        # an awaited async fn shows up twice (the call creating the future, and the poll of its body): the body is entered
+        # through the creating call, which carries the arguments
+        via_fn = set()
+        for e in hb.events:
+            for m_ in prog.callee_nodes(e):
+                if m_ in prog.fns and prog.fns[m_].kind != "Closure":
+                    ab = prog.async_body(prog.fns[m_])
+                    if ab is not None:
+                        via_fn.add(ab.id)
+        for e in hb.events:
+            if e.kind == "ref" or (live is not None and e.block not in live and e.call_block not in live):
+                continue
+            nxt = [n for n in prog.callee_nodes(e) if (n in back or n in begin) and n in prog.fns]
+            if not nxt:
+                continue
+            guards = _guarding_variants(hb, e.block) | _guarding_variants(hb, e.call_block)
+            for n in nxt:
+                callee = prog.fns[n]
+                if n in via_fn and callee.kind == "Closure":
+                    continue
+                cc = {}
+                if callee.kind != "Closure":
+                    names = {d["p"]["l"]: d["n"] for d in callee.dbg if "p" in d and not d["p"].get("p") and d["p"]["l"] <= callee.argc}
+                    for i, a_ in enumerate(e.args):
+                        k_ = a_.get("k") if isinstance(a_, dict) else None
+                        if k_ and k_.get("ty") == "bool" and k_.get("int") in ("0", "1") and (i + 1) in names:
+                            cc[names[i + 1]] = int(k_["int"])
+                walk(n, acc | guards, cc, depth + 1, stack | {fid})
+
+    for x in ex:
+        for n in prog.callee_nodes(x):
+            if n in back and n in prog.fns:
+                walk(n, frozenset(), {}, 0, frozenset())
+    key = "transaction-under-exclusive-lock|%s" % arm
+    if not chains:
+        rep.ob("R17.1", key, True, "the %s executor reaches no transaction" % arm, se.file)
+        return
+    fmt = lambda c: "{" + ", ".join(sorted("%s::%s" % (a.rsplit("::", 1)[1], v) for a, v in c)) + "}"
+    rep.note("transaction-reaching-variants:" + arm, sorted(fmt(c) for c in chains))
+    aw = {b for e in locks if e.callee.endswith("::write") for b in (e.block, e.call_block)}
+    exb = [x.block for x in ex]
+    if aw and all(se.must_pass(aw, [b]) for b in exb):
+        rep.ob("R17.1", key, True, "always exclusive", se.file)
+        return
+    bad = []
+    for chain in sorted(chains, key=fmt):
+        best, bestT = None, set()
+        for (sb, place, adt, m, els) in se.variant_edges():
+            if sb not in R and not any(t in R for t in m.values()):
+                continue
+            for v_, tb in m.items():
+                if tb == els or (adt, v_) not in chain:
+                    continue
+                inarm = {(a, x) for (a, x) in _guarding_variants(se, tb) if a != "anda_kip::ast::Command"}
+                if inarm and inarm <= chain and len(inarm) > len(bestT):
+                    best, bestT = tb, inarm
+        if best is None or not aw:
+            bad.append("%s: the arm takes the shared lock without testing for it" % fmt(chain))
+            continue
+        r = valueflow.reachable_ps(se, best, avoid=aw)
+        if any(b_ in r for b_ in exb):
+            bad.append("%s: after testing %s the executor is still reachable without the exclusive lock" % (fmt(chain), fmt(bestT)))
+    rep.ob("R17.1", key, not bad,
+           "the %s executor reaches Transaction::begin (a dry run plans a real transaction: sequence allocation, pending shells) under the shared lock, "
+           "so a concurrent reader sees them - %s" % (arm, "; ".join(bad)), (ex[0].where() if ex else se.file))
+
+
 def run(rep, tier):
     prog = nx.load()
     rep.not_decided = "nothing observable changed over the whole space; partial commit after a mid-loop write failure (commit has no rollback of rows already written); reader isolation under real schedules"
@@ -43,8 +171,11 @@ def run(rep, tier):
         au = [e for e in se.calls_named(r"nexus::Session::authority$") if e.block in R]
         ga = [e for e in se.calls_named(r"nexus::Session::gate$") if e.block in R]
         ex = [e for e in se.calls_named(erx) if e.block in R]
-        ok = bool(locks) and all(e.callee.endswith("::" + mode) for e in locks)
+        # KML must be exclusive; for the read arms the shared mode is the normal case and the exclusive one is merely stronger
+        ok = bool(locks) and all(e.callee.endswith("::write") or (mode == "read" and e.callee.endswith("::read")) for e in locks)
         rep.ob("R17.1", "lock-mode|%s" % v, ok, "the %s arm must take the nexus lock with .%s() (found %s)" % (v, mode, [e.callee.rsplit("::", 1)[1] for e in locks]), (locks[0].where() if locks else se.file))
+        if mode == "read":
+            _tx_under_exclusive(rep, prog, se, v, R, locks, ex)
         okg = set()
         for g in ga:
             okg |= set(se.result_edges(g)[0])
@@ -162,6 +293,76 @@ def run(rep, tier):
         names = {e.name.rsplit("::", 1)[1] for e in b.calls()}
         rep.ob("R17.3", "checks-grouped|check_before_write", {"propagate_governance", "check_reference_closure", "check_concept_key_identity"} <= names,
                "the pre-write checks (governance propagation, reference closure, key identity) all run inside the guarded helper", b.file + ":%d" % b.line)
+
+    # the row store refuses *content* on write (anda_db Collection::add_from / update: schema validation, the complexity budget
+    # - array length, node count - and the object size limit).  A row write is therefore a refusal source in the middle of the
+    # write loop unless every staged row was put through the same validation before the first write, or a failed row write is
+    # compensated.  (There is no log to unwind: rows written before the refusal stay, with no journal entry.)
+    wr = [e for e in cm.calls_named(r"Transaction::write$")]
+    content_refusing = [n for e in wr for n in (prog.reach_set(list(prog.callee_nodes(e))) | set(prog.callee_nodes(e)))
+                        if re.search(r"^ext:anda_db::collection::Collection::(add_from|add|update|upsert)$", prog.node_name(n) or "")]
+    if not wr or not content_refusing:
+        raise CheckerFault("anchor missing: Transaction::write reaching Collection::add_from / update")
+    prevalid = False
+    if cbw:
+        for n in prog.reach_set([cbw[0].id]):
+            if re.search(r"^ext:anda_db_schema::(schema::Schema::validate|field::FieldValue::validate_complexity(_with)?|document::Document::(try_from|validate)[^:]*)$",
+                         prog.node_name(n) or ""):
+                prevalid = True
+    compensated = True
+    for e in wr:
+        oks, errs = cm.result_edges(e)
+        for t in errs:
+            after = cm.reachable_from([t])
+            if not any(c.block in after and prog.event_in(c, writes) for c in cm.calls() if c not in wr):
+                compensated = False
+    rep.ob("R17.3", "content-refusals-before-first-write|Transaction::commit", prevalid or (bool(wr) and compensated),
+           "a row write (Collection::add_from / update) refuses content - an array longer than 4096, more than 16384 nodes, an object over the size limit - "
+           "in the middle of the write loop: check_before_write runs no schema / complexity / size validation over the staged rows, and the Err edge of "
+           "Transaction::write returns without compensation, so the rows written before it stay (no journal entry) and the unwritten handles stay as pending shells",
+           wr[0].where())
+
+    # ------------------------------------------------------------------ R17.7 planning order
+    rep.rule("R17.7", "planning order (clause order carries no semantics): every clause that creates the record behind a handle is planned in an earlier pass "
+             "than every clause that can load and edit one; PLAN_PASSES covers every pass plan_pass hands out", floor=3)
+    from .c16 import arm_regions
+    MCL = "anda_kip::ast::MutationClause"
+    pp = prog.fn(nx.N + "::kml::clauses::plan_pass")
+    rep.saw(pp, len(pp.events))
+    passes = {}
+    for v, bl in arm_regions(pp, MCL).items():
+        vals = {int(st[2]["o"]["k"]["int"]) for b in bl for st in pp.stmts(b)
+                if st[0] == "A" and st[1]["l"] == 0 and st[2]["k"] == "use" and isinstance(st[2]["o"], dict) and (st[2]["o"].get("k") or {}).get("int") is not None}
+        if len(vals) == 1:
+            passes[v] = vals.pop()
+    # a clause "creates" when its arm of clauses::apply reaches the staging of a new row or the late binding of a handle
+    ap = prog.fn(nx.N + "::kml::clauses::apply")
+    rep.saw(ap, len(ap.events))
+    mk = {f.id for f in prog.fns.values() if f.path in (TX + "::stage_new", TX + "::bind_existing")}
+    if len(mk) < 2:
+        raise CheckerFault("anchor missing: Transaction::stage_new / bind_existing")
+    creating = set()
+    for v, bl in arm_regions(ap, MCL).items():
+        for e in ap.events:
+            if (e.block in bl or e.call_block in bl) and any(n in prog.fns and (prog.reach_set([n]) | {n}) & mk for n in prog.callee_nodes(e)):
+                creating.add(v)
+    if len(passes) < 12 or len(creating) < 6:
+        raise CheckerFault("anchor missing: plan_pass constants per clause (%d) / handle-declaring clauses (%s)" % (len(passes), sorted(creating)))
+    others = {v for v in passes if v not in creating}
+    late = sorted(v for v in creating if v in passes and others and passes[v] >= min(passes[o] for o in others))
+    rep.note("plan_passes", {v: passes[v] for v in sorted(passes)})
+    rep.ob("R17.7", "creating-clauses-planned-first|plan_pass", not late and creating <= set(passes),
+           "%s share a planning pass with (or come after) clauses that load and edit a handle's row: in `CORRECT EVIDENCE :old BY ?new  CREATE EVIDENCE ?new {..}` "
+           "the edit is applied to the still-empty shell and overwritten by the creation - the statement commits with E-old.corrected_by set and "
+           "E-new.corrects empty" % ", ".join(late), pp.file + ":%d" % pp.line)
+    npass = [k.get("int") for pth, k in prog.consts.items() if pth == nx.N + "::kml::clauses::PLAN_PASSES"]
+    rep.ob("R17.7", "pass-count-covers-every-pass|PLAN_PASSES", bool(npass) and npass[0] is not None and int(npass[0]) == max(passes.values()) + 1,
+           "PLAN_PASSES = %s but plan_pass hands out passes up to %d: clauses of a pass beyond the count are never applied" % (npass, max(passes.values())), pp.file + ":%d" % pp.line)
+    kp = prog.fn(nx.N + "::kml::plan")
+    uses = [1 for b in kp.live_blocks() for st in kp.stmts(b) if st[0] == "A" for o in core._rvalue_operands(st[2]) if ((o.get("k") or {}).get("def") or "").endswith("::PLAN_PASSES")]
+    uses += [1 for b in kp.live_blocks() if kp.term(b)["k"] == "call" for o in kp.term(b)["args"] if ((o.get("k") or {}).get("def") or "").endswith("::PLAN_PASSES")]
+    rep.ob("R17.7", "plan-iterates-the-pass-count|kml::plan", bool(uses) and bool(kp.calls_named(r"kml::clauses::plan_pass$")) and bool(kp.calls_named(r"kml::clauses::apply$")),
+           "kml::plan loops over 0..PLAN_PASSES and applies the clauses plan_pass assigns to each pass", kp.file + ":%d" % kp.line)
 
     # ------------------------------------------------------------------ R17.4
     rep.rule("R17.4", "element versions are assigned only by the transactional writer (value from commit: 1 or loaded+1) and by the stamping helpers of Store::insert/update", floor=7)
